@@ -604,8 +604,36 @@ fn mutate(r: &mut Rng, cur: &[Key], alphabet: usize) -> (Vec<Key>, &'static str)
         }
     };
     let mut v = cur.to_vec();
-    match r.below(12) {
+    match r.below(14) {
         0 => (random_seq(r, alphabet, 8), "random"),
+        12 => {
+            // F-C11-1 proper: the retained items reversed (or two of them swapped) behind 1..3 new items:
+            // an item whose index shift equals the number of additions is not moved in the DOM
+            if r.chance(1, 2) {
+                v.reverse();
+            } else if v.len() > 1 {
+                let (i, j) = (r.below(v.len()), r.below(v.len()));
+                v.swap(i, j);
+            }
+            for _ in 0..r.range(1, 3) {
+                if let Some(k) = fresh(r, &v) {
+                    v.insert(0, k);
+                }
+            }
+            (v, "reverse-behind-new")
+        }
+        13 => {
+            // removals in front and a retained item pulled forward by the same amount
+            let cut = r.below(v.len() / 2 + 1);
+            let mut w: Vec<Key> = v[cut..].to_vec();
+            if w.len() > 2 {
+                let i = r.range(1, w.len() - 1);
+                let k = w.remove(i);
+                let at = r.below(i);
+                w.insert(at, k);
+            }
+            (w, "drop-front-pull")
+        }
         1 => {
             v.reverse();
             (v, "reverse")
@@ -696,6 +724,7 @@ const SHAPES: &[(usize, usize, usize)] = &[(1, 1, 1), (0, 0, 1), (1, 0, 2), (2, 
 
 fn gen(seed: u64, n: usize, path: &str, tier: &str) -> std::io::Result<()> {
     use std::io::Write;
+    quiet_panics();
     let mut r = Rng::new(seed);
     let mut f = std::io::BufWriter::new(std::fs::File::create(path)?);
     // 1. exhaustive small scope: every pair of duplicate-free sequences
@@ -786,6 +815,13 @@ fn gen(seed: u64, n: usize, path: &str, tier: &str) -> std::io::Result<()> {
                 lines.push(format!("update {}", show(&next)));
                 tags.push(tag);
                 cur = next;
+            }
+        }
+        // run the history here to tag the ones that leave the DOM mis-ordered (known-finding class)
+        {
+            let mut sess: Option<Session> = None;
+            if lines.iter().any(|l| op(&mut sess, l).contains("## fail")) {
+                tags.push("dom-order-broken");
             }
         }
         tags.sort();
